@@ -253,9 +253,8 @@ def selftest() -> int:
 
 
 def replay(case) -> int:
-    ensure_repo_on_path()
-    print("replay C01:", case["detail"])
-    return 1
+    from .common import replay_state
+    return replay_state(judge_state, case, "C01")
 
 
 def run(tier: str, seed: int) -> int:
